@@ -20,7 +20,7 @@ Check C07_prompt_owner : forall c acts,
 (** Nobody but the shell or the job being waited for ever owns the terminal. *)
 Theorem C07_owner_cases : forall c acts,
   owner (Term.run c acts) = c_sh c \/
-  exists pids w v, md (Term.run c acts) = Waiting (owner (Term.run c acts)) pids w v.
+  exists pids w v rest, md (Term.run c acts) = Waiting (owner (Term.run c acts)) pids w v rest.
 Proof. exact owner_cases. Qed.
 
 (** A job launched with & (typed at the prompt) is never the owner as long as
@@ -36,16 +36,35 @@ Check C07_bg_never_owner : forall c pre pids post,
   forallb (fun a => negb (may_fg (hd 0 pids) a)) post = true ->
   owner (Term.run c (pre ++ ALaunch pids true :: post)) <> hd 0 pids.
 
-(** No action moves a process to another group; only a launch typed at the
-    prompt adds processes: every stage in the group of the first. *)
-Theorem C07_groups_fixed : forall c s a, groups (Term.step c s a) = groups s ++ added s a.
+(** No action moves a process to another group; processes are only added, and
+    only the stages of launches of the line being run, each in the group of the
+    first stage of its launch ([ledc]); what is left to run of a line is part of it. *)
+Theorem C07_groups_fixed : forall c s a, exists ex,
+  groups (Term.step c s a) = groups s ++ ex /\ Forall (ledc (rest_of (md s) ++ line_of a)) ex /\
+  incl (rest_of (md (Term.step c s a))) (rest_of (md s) ++ line_of a).
 Proof. exact step_groups. Qed.
+
+(** The shell's signal mask. [give_terminal_to] blocks SIGTSTP / SIGTTIN /
+    SIGTTOU / SIGCHLD, calls tcsetpgrp and restores the saved mask: the mask
+    afterwards is the mask before, whatever tcsetpgrp returned. *)
+Theorem C07_give_terminal_mask : forall ok gid ow m, snd (give_terminal_to ok gid ow m) = m.
+Proof. exact give_terminal_to_mask. Qed.
+
+(** In every state of every session -- in particular at every prompt, and after
+    every failed hand-over of the terminal -- the shell's mask is the initial
+    one, and every process the shell has started began with the initial mask
+    (so Ctrl-Z reaches it, K8). *)
+Theorem C07_mask_initial : forall c acts,
+  smask (Term.run c acts) = false /\ Forall (fun p => pblk p = false) (procs (k (Term.run c acts))).
+Proof. exact mask_initial. Qed.
+Check C07_mask_initial : forall c acts,
+  smask (Term.run c acts) = false /\ Forall (fun p => pblk p = false) (procs (k (Term.run c acts))).
 
 (** The two clauses that used to depend on the schedule: while the shell waits
     on job J the owner is gid J, and every process sits in the group led by
     the first stage of its pipeline. *)
 Definition C07_holds (c : cfg) (acts : list action) : Prop :=
-  (forall g pids w v, md (Term.run c acts) = Waiting g pids w v -> owner (Term.run c acts) = g) /\
+  (forall g pids w v rest, md (Term.run c acts) = Waiting g pids w v rest -> owner (Term.run c acts) = g) /\
   Forall (led acts) (groups (Term.run c acts)).
 
 Definition C07_full : Prop := forall c acts, tty c = true -> C07_holds c acts.
@@ -53,11 +72,11 @@ Definition C07_full : Prop := forall c acts, tty c = true -> C07_holds c acts.
 Theorem C07_full_holds : C07_full.
 Proof.
   intros c acts T. split.
-  - intros g pids w v M. eapply wait_owner; eauto.
+  - intros g pids w v rest M. eapply wait_owner; eauto.
   - apply one_group.
 Qed.
 Check C07_full_holds : forall c acts, tty c = true ->
-  (forall g pids w v, md (Term.run c acts) = Waiting g pids w v -> owner (Term.run c acts) = g) /\
+  (forall g pids w v rest, md (Term.run c acts) = Waiting g pids w v rest -> owner (Term.run c acts) = g) /\
   Forall (led acts) (groups (Term.run c acts)).
 
 (** ---------- the job-table clauses, as corollaries of C06 lifted through the actions.
@@ -77,7 +96,7 @@ Corollary C07_table_is_C06 : forall c acts,
   forallb no_fgbg acts = true -> md (Term.run c acts) = AtPrompt ->
   shl (k (Term.run c acts)) = r_sh (Jobs.run (hist c acts)) /\ r_pend (Jobs.run (hist c acts)) = [].
 Proof.
-  intros c acts A M. destruct (sim c acts A) as [P H]. rewrite M in H. split; auto.
+  intros c acts A M. destruct (sim c acts A) as [P [_ H]]. rewrite M in H. split; auto.
 Qed.
 
 (** "The foreground wait returns exactly when no member of the job runs": for
@@ -139,7 +158,7 @@ Proof. vm_compute. repeat split. Qed.
     waits and 102 has the terminal; the prompt returns when 102 ends *)
 Definition w_count_waited := [ALaunch [101; 102] false; ESig 101 19; ESig 101 18; EExit 101 0].
 Example C07_regress_count_waited :
-  md (Term.run cfg0 w_count_waited) = Waiting 101 [101; 102] [101] (VLaunch true) /\
+  md (Term.run cfg0 w_count_waited) = Waiting 101 [101; 102] [101] (VLaunch true) [] /\
   owner (Term.run cfg0 w_count_waited) = 101 /\
   map Term.pst (procs (k (Term.run cfg0 w_count_waited))) = [PGone; PRun] /\
   md (Term.run cfg0 (w_count_waited ++ [EExit 102 0])) = AtPrompt /\
@@ -170,6 +189,25 @@ Example C07_regress_partial_continue :
   outs (k (Term.run cfg0 w_partial_continue)) = [OJobLine 1 101 Running true].
 Proof. vm_compute. repeat split. Qed.
 
+(** a hand-over that FAILS (seed C07-sigmask-not-restored-on-tcsetpgrp-failure): a
+    background job ends while a foreground command of the same line is waited
+    for (the wait reaps it, the table still lists it), then [fg] on that line:
+    tcsetpgrp to the vanished group fails. Afterwards the mask is the initial
+    one, a later foreground job starts unblocked and Ctrl-Z stops it. *)
+Definition w_fg_gone :=
+  [ALaunch [101] true; ALine [CLaunch [102] false; CFg (Some 1) 0]; EExit 101 0; EExit 102 0;
+   ALaunch [103] false; ACtrlZ].
+Example C07_regress_failed_handover :
+  (* after the line: at the prompt, fg printed the command and failed, the job is reported Done *)
+  outs (k (Term.run cfg0 (firstn 4 w_fg_gone))) = [OFgCmd 1; ODone 1 101 (-1)] /\
+  md (Term.run cfg0 (firstn 4 w_fg_gone)) = AtPrompt /\
+  smask (Term.run cfg0 (firstn 4 w_fg_gone)) = false /\
+  (* the next foreground job is stopped by Ctrl-Z and the prompt returns *)
+  md (Term.run cfg0 w_fg_gone) = AtPrompt /\
+  map (fun p => (Term.pst p, pblk p)) (procs (k (Term.run cfg0 w_fg_gone))) = [(PGone, false); (PGone, false); (PStop, false)] /\
+  outs (k (Term.run cfg0 w_fg_gone)) = [OStopped 1 103].
+Proof. vm_compute. repeat split. Qed.
+
 (** non-vacuity: a session through bg launch, fg launch, Ctrl-Z, jobs, fg, Ctrl-C, bg, kill *)
 Definition w_session :=
   [ALaunch [101; 102] true; ALaunch [103] false; ACtrlZ; AJobs;
@@ -187,6 +225,8 @@ Print Assumptions C07_owner_cases.
 Print Assumptions C07_bg_never_owner.
 Print Assumptions C07_groups_fixed.
 Print Assumptions C07_full_holds.
+Print Assumptions C07_mask_initial.
+Print Assumptions C07_give_terminal_mask.
 Print Assumptions C07_simulation.
 Print Assumptions C07_wait_exact.
 Print Assumptions C07_jobs_exact.
